@@ -238,6 +238,10 @@ struct Explorer {
             size_t junk = data.size() * sizeof(K) * 3 + 8192;
             for (int w = 0; w < 2; ++w) { FILE *f = fopen((w ? f2 : f1).c_str(), "wb"); std::string block(junk, w ? char(0xCD) : char(0xAB)); fwrite(block.data(), 1, block.size(), f); fclose(f); }
         }
+        // every third history names the raw key file through a symbolic link
+        std::string rawl = g_dir + "/rawlink.bin"; unlink(rawl.c_str());
+        bool via_link = (std::hash<std::string>()(hist) / 4 + data.size()) % 3 == 0 && symlink(raw.c_str(), rawl.c_str()) == 0;
+        const std::string &raw_path = via_link ? rawl : raw;
         struct Obj { Index *ix; int file; const char *how; };
         std::vector<Obj> live;
         std::string bytes1, bytes2; Snapshot s1{}, s2{}; bool have1 = false, have2 = false;
@@ -250,7 +254,7 @@ struct Explorer {
                     // the range constructor accepts any random-access range: every other history passes a std::deque (not contiguous)
                     if (use_deque) { std::deque<K> dq(data.begin(), data.end()); live.push_back({new Index(dq.begin(), dq.end(), f1), 1, "range-created container (from std::deque)"}); }
                     else live.push_back({new Index(data.begin(), data.end(), f1), 1, "range-created container"}); run.add(cn.containers); bytes1 = file_bytes(f1); s1 = snap(*live.back().ix); have1 = true; }
-                else if (op == "W") { live.push_back({new Index(raw, f2), 2, "raw-file-created container"}); run.add(cn.containers); bytes2 = file_bytes(f2); s2 = snap(*live.back().ix); have2 = true; }
+                else if (op == "W") { live.push_back({new Index(raw_path, f2), 2, via_link ? "raw-file-created container (input named through a symbolic link)" : "raw-file-created container"}); run.add(cn.containers); bytes2 = file_bytes(f2); s2 = snap(*live.back().ix); have2 = true; }
                 else if (op == "O1" || op == "O2") {
                     int which = op == "O1" ? 1 : 2;
                     live.push_back({new Index(which == 1 ? f1 : f2), which, "reopened container"}); run.add(cn.containers);
@@ -277,7 +281,7 @@ struct Explorer {
         }
         for (auto &o : live) delete o.ix;
         close_leaked_fds();
-        unlink(f1.c_str()); unlink(f2.c_str()); unlink(raw.c_str());
+        unlink(f1.c_str()); unlink(f2.c_str()); unlink(raw.c_str()); unlink(rawl.c_str());
     }
 
     // raw input files whose size is a multiple of the page size (or just around it): unmapping the input with a wrong length would
